@@ -139,3 +139,16 @@ Lemma keys_carry_the_id_as_given :
   key_ctor_wf Gen.Private.OwnedKey_new_with false = true /\ key_ctor_wf Gen.Private.OwnedKey_new true = true /\
   key_borrow_wf Gen.Private.OwnedKey_borrow = true /\ key_to_owned_wf Gen.Private.BorrowedKey_to_owned = true.
 Proof. vm_compute. repeat split. Qed.
+
+(* both caches load through the ONE add_asset (RawCache's default: load, then insert -- no map
+   borrow or lock is held while the loader runs): their RawCache impls define the accessors and
+   nothing else *)
+Definition raw_items_wf (f : fn_def) : bool :=
+  match fn_body f with
+  | [EPath ["assets"]; EPath ["get_source"]; EPath ["reloader"]] => true
+  | _ => false
+  end.
+Lemma caches_load_through_the_default_add_asset :
+  raw_items_wf Gen.CacheMap.AssetCache_raw_items = true /\
+  raw_items_wf Gen.LocalMap.LocalAssetCache_raw_items = true.
+Proof. vm_compute. split; reflexivity. Qed.
